@@ -107,6 +107,10 @@ def run(ctx):
         f = ctx.path("seqs%d.ndjson" % L)
         p = ctx.vh(["c12-seqs", "-L", str(L), "-out", f, "-sample", str(frac)], timeout=3000)
         recs = vlib.read_ndjson(f)
+        for r in [r for r in recs if r.get("panic")][:5]:
+            ctx.violation("seq:%s/panic" % ("set" if r["set"] else "dict"),
+                          "the %s panics during the operation sequence %s: %s" % ("set" if r["set"] else "dict", r["ops"], r["panic"][:200]), {"seq": r})
+        recs = [r for r in recs if not r.get("panic")]
         files = []
         for k, sh in enumerate(vlib.shard(recs, len(recs) // 120000 + 1)):
             ff = ctx.path("seqs%d-%02d.ndjson" % (L, k))
